@@ -84,8 +84,8 @@ func main() {
 	if err := os.MkdirAll(out, 0o755); err != nil {
 		fatal("%v", err)
 	}
-	for _, bad := range []string{"/repo", "/verif"} {
-		if under(out, bad) && !strings.HasPrefix(out, "/verif/evidence") && !strings.HasPrefix(out, "/verif/out") {
+	for _, bad := range []string{"/repo", "/verif/harness", "/verif/coq"} {
+		if under(out, bad) {
 			fatal("refusing to use %s as output directory (inside %s)", out, bad)
 		}
 	}
@@ -182,7 +182,7 @@ func runFS(bin, work string, res *vh.Result) {
 				n = 20 * quickFS
 			}
 		}
-		r := vh.NewRand(*flagSeed)
+		r := vh.NewRand(*flagSeed).Fork() // Fork: NewRand(s+1) is NewRand(s) shifted by one draw
 		for i := 0; i < n; i++ {
 			cases = append(cases, genCase(r.Fork(), genOpts{known: *flagKnown}))
 		}
@@ -269,7 +269,19 @@ func runFS(bin, work string, res *vh.Result) {
 			}
 		}
 		seenSig[sig] = true
+		perSig := map[string]int{}
 		for _, f := range o.Findings {
+			perSig[f.Signature]++
+		}
+		emitted := map[string]bool{}
+		for _, f := range o.Findings {
+			if emitted[f.Signature] {
+				continue // one violation per signature and case; the count goes into the detail
+			}
+			emitted[f.Signature] = true
+			if perSig[f.Signature] > 1 {
+				f.Detail = strings.TrimSpace(f.Detail + fmt.Sprintf(" (%d paths of this case show the same signature)", perSig[f.Signature]))
+			}
 			v := vh.Violation{Kind: "oracle", Signature: f.Signature, Input: caseInput(wc), Observed: f.Observed, Expected: f.Expected, Detail: f.Detail, Case: i,
 				Options: map[string]string{"witness": caseJSON(wc), "exit": fmt.Sprint(o.Exit), "stderr": clip(o.Stderr, 300)}}
 			if o.Known != "" {
